@@ -123,35 +123,53 @@ def _scalar(v):
     return float(np.asarray(v, dtype=float).reshape(-1)[0])
 
 
+DEFAULTS = {"deg": 3, "err": 0.01, "lo": 10, "hi": 80}  # documented defaults of AndContour / OrContour
+
+
 def run_impl(case):
+    """arguments named in case["omit"] are not passed (the case then carries the documented default value, which
+    the model and the oracle use)"""
+    import traceback
+
     from virocon import AndContour, OrContour
 
-    alpha, deg, err = case["alpha"], case["deg"], case["err"]
+    alpha = case["alpha"]
+    omit = set(case.get("omit", ()))
     sample = make_sample(case) if case.get("supplied", True) else None
     model = make_model(case, sample)
     # unusual but legitimate option combination: an explicit n together with a supplied sample (n is only the
     # size of a sample the contour draws itself; it must not influence anything when a sample is supplied)
-    n_kw = {"n": int(case["n_with_sample"])} if (sample is not None and case.get("n_with_sample")) else {}
-    out = {}
+    kw = {"n": int(case["n_with_sample"])} if (sample is not None and case.get("n_with_sample")) else {}
+    if "deg" not in omit:
+        kw["deg_step"] = case["deg"]
+    if "err" not in omit:
+        kw["allowed_error"] = case["err"]
+    if case["kind"] == "or":
+        if "lo" not in omit:
+            kw["lowest_theta"] = case["lo"]
+        if "hi" not in omit:
+            kw["highest_theta"] = case["hi"]
+    passed = None if sample is None else sample.copy()
+    out = {"supplied_sample": sample, "passed_sample": passed}
     try:
         with warnings.catch_warnings(record=True) as w:
             warnings.simplefilter("always")
             if not case.get("supplied", True):
                 np.random.seed(case["sseed"] % (2**32))
-            if case["kind"] == "and":
-                c = AndContour(model, alpha, deg_step=deg, sample=None if sample is None else sample.copy(),
-                               allowed_error=err, **n_kw)
-            else:
-                c = OrContour(model, alpha, deg_step=deg, sample=None if sample is None else sample.copy(),
-                              allowed_error=err, lowest_theta=case["lo"], highest_theta=case["hi"], **n_kw)
+            cls = AndContour if case["kind"] == "and" else OrContour
+            c = cls(model, alpha, sample=passed, **kw)
         out["nwarn"] = sum(1 for m in w if issubclass(m.category, UserWarning) and WARN_TEXT in str(m.message))
         co = c.coordinates
         out["coords"] = np.array([[_scalar(co[i][0]), _scalar(co[i][1])] for i in range(len(co))], dtype=float).reshape(-1, 2)
         out["sample"] = np.array(c.sample, dtype=float)
+        out["n_attr"] = getattr(c, "n", None)
     except Exception as e:  # noqa: BLE001
         out["err"] = type(e).__name__
         out["msg"] = str(e)[:200]
+        fr = traceback.extract_tb(e.__traceback__)[-1]
+        out["err_origin"] = f"{fr.filename.rsplit('/', 1)[-1]}:{fr.name}"
         out["sample"] = sample if sample is not None else (model.rec_draw[0][1] if model.rec_draw else None)
+    out["drawn"] = [(n, s) for n, s in model.rec_draw]
     icdf = {d: v for (_, d, v) in model.rec_icdf}
     out["icdf_calls"] = [(p, d) for (p, d, _) in model.rec_icdf]
     if 0 in icdf and 1 in icdf:
@@ -234,11 +252,38 @@ def exceed(kind, x, y, vx, vy):
 def oracle(case, impl):
     bad = []
     if "err" in impl:
-        if impl["err"] not in ("IndexError",):
-            bad.append(("no_exception", f"{impl['err']}: {impl.get('msg')}"))
+        # the only documented-by-behaviour exception: OrContour closes the polygon through `coords_y[-1]` /
+        # `coords_x[0]`; with EVERY searched point filtered out that is an IndexError raised in OrContour._compute
+        # itself (the model answers `emptyKept` for exactly these inputs - compared in `compare`).  An IndexError of
+        # AndContour, or one raised deeper (numpy / model code), is not excused.
+        excused = impl["err"] == "IndexError" and case["kind"] == "or" and impl.get("err_origin") == "contours.py:_compute"
+        if not excused:
+            bad.append(("no_exception", f"{impl['err']} raised in {impl.get('err_origin')}: {impl.get('msg')}"))
         return bad
     kind, alpha, err = case["kind"], case["alpha"], case["err"]
     co, sample = impl["coords"], impl["sample"]
+    unjustified_missing = []
+    # --- the sample the contour worked on is the supplied one, untouched / the one drawn with n = int(100/alpha)
+    if impl["supplied_sample"] is not None:
+        sup = impl["supplied_sample"]
+        if sample.shape != sup.shape or not np.array_equal(sample, np.asarray(sup, dtype=float)):
+            bad.append(("sample_stored", "contour.sample is not the supplied sample (values differ from what was handed over)"))
+            return bad
+        if not np.array_equal(np.asarray(impl["passed_sample"], dtype=float), np.asarray(sup, dtype=float)):
+            bad.append(("sample_stored", "the array handed over as `sample` was modified in place"))
+            return bad
+        if impl["drawn"]:
+            bad.append(("sample_stored", f"a sample was supplied but model.draw_sample was called with n={[d[0] for d in impl['drawn']]}"))
+            return bad
+    else:
+        want_n = int(100 / alpha)
+        dr = impl["drawn"]
+        if impl.get("n_attr") != want_n or sample.shape != (want_n, 2):
+            bad.append(("default_n", f"alpha={alpha}: n attribute {impl.get('n_attr')}, sample shape {sample.shape}, expected n={want_n}"))
+            return bad
+        if len(dr) != 1 or dr[0][0] != want_n or not np.array_equal(np.asarray(dr[0][1], dtype=float), sample):
+            bad.append(("sample_stored", f"model.draw_sample calls {[d[0] for d in dr]} (expected one call with n={want_n}); stored sample is not the drawn one"))
+            return bad
     x, y = sample.T
     th = [float(t) for t in thetas_of(case)]
     T = len(th)
@@ -272,6 +317,7 @@ def oracle(case, impl):
         if not np.array_equal(tail, np.array(want)):
             bad.append(("or_closure", f"tail {tail.tolist()} expected {want}"))
         xmax, ymax = 1.1 * max(x), 1.1 * max(y)
+        unjustified_missing = []
         # kept points follow the thetas in order, each theta at most once
         searched = []
         ti = 0
@@ -287,7 +333,12 @@ def oracle(case, impl):
             if not (p[0] < xmax and p[1] < ymax):
                 bad.append(("or_filter_range", f"kept point {p.tolist()} (theta {theta}) not below 1.1*max = {(xmax, ymax)}"))
                 break
-        if impl["nwarn"] == 0 and not bad:
+        # a theta may be missing only if the point found on its ray lies outside the box.  For a ray without
+        # precision warning that point is precise; if the exceedance just inside the box edge is already below
+        # the precise band, no precise point exists outside the box (OR exceedance falls along the ray), so the
+        # ray's point was inside and must not have been dropped.  Such a theta can then only be one of the
+        # rays that warned (their end point is arbitrary): counted against the number of warnings below.
+        if not bad:
             present = {theta for _, theta in searched}
             for theta in th:
                 if theta in present:
@@ -299,9 +350,7 @@ def oracle(case, impl):
                 d_in = d_exit * (1 - 1e-9)
                 pe_in = exceed(kind, x, y, c * d_in, s * d_in)
                 if pe_in < alpha - err * alpha * (1 + 1e-9):
-                    bad.append(("or_dropped_point_within_range",
-                                f"theta {theta} missing although every precise point of this ray is inside the 1.1*max box (pe just inside the box edge = {pe_in!r})"))
-                    break
+                    unjustified_missing.append((theta, pe_in))
     for i, (p, theta) in enumerate(searched):
         if not on_ray(p, theta):
             bad.append(("point_on_ray", f"point {i} {p.tolist()} not on the ray of theta {theta}"))
@@ -319,6 +368,13 @@ def oracle(case, impl):
         bad.append(("exceedance_within_allowed_error",
                     f"{impl['nwarn']} precision warning(s) but {len(imprecise)} imprecise point(s); point {i} {p.tolist()} (theta {theta}): "
                     f"{kind.upper()} exceedance {pe!r}, alpha {alpha}, |pe-alpha|/alpha = {abs(pe - alpha) / alpha:.4g} > {err}"))
+    elif kind == "or" and unjustified_missing and len(imprecise) + len(unjustified_missing) > impl["nwarn"]:
+        theta, pe_in = unjustified_missing[0]
+        bad.append(("or_dropped_point_within_range",
+                    f"{len(unjustified_missing)} theta(s) missing although every precise point of their rays is inside the 1.1*max box, "
+                    f"{len(imprecise)} kept point(s) imprecise, but only {impl['nwarn']} precision warning(s); e.g. theta {theta} "
+                    f"(pe just inside the box edge = {pe_in!r})"))
+    impl["_or_missing_checked"] = (len(unjustified_missing), len(imprecise)) if kind == "or" else None
     return bad
 
 
@@ -331,6 +387,8 @@ def evaluate(cases):
     for case in cases:
         impl = run_impl(case)
         rec = {"case": case, "bad": oracle(case, impl), "impl_err": impl.get("err"), "nwarn": impl.get("nwarn", 0)}
+        rec["or_missing"] = impl.get("_or_missing_checked")
+        rec["err_origin"] = impl.get("err_origin")
         rec["has_model_input"] = "max_distance" in impl and impl.get("sample") is not None
         if rec["has_model_input"]:
             lines += model_lines(case, impl)
@@ -384,6 +442,13 @@ def corpus_cases():
         if kind == "or":
             c.update(lo=0, hi=90)
         yield c
+    # the documented defaults, arguments omitted: deg_step=3, allowed_error=0.01, lowest_theta=10, highest_theta=80
+    yield dict(base, kind="and", src="model", model="hs_u_weibull2", pseed=2, n=5000, sseed=21, alpha=0.02,
+               deg=DEFAULTS["deg"], err=DEFAULTS["err"], omit=["deg", "err"])
+    yield dict(base, kind="or", src="model", model="hs_u_weibull2", pseed=2, n=5000, sseed=21, alpha=0.02,
+               deg=DEFAULTS["deg"], err=DEFAULTS["err"], lo=DEFAULTS["lo"], hi=DEFAULTS["hi"], omit=["deg", "err", "lo", "hi"])
+    yield dict(base, kind="or", src="cloud", cloud="pareto", n=2000, sseed=22, alpha=0.05,
+               deg=5, err=0.05, lo=DEFAULTS["lo"], hi=DEFAULTS["hi"], omit=["lo", "hi"])
     # allowed_error >= 1 is outside the quantifier: the loop body never runs, current_vector is unbound
     yield dict(base, kind="and", src="cloud", cloud="ties", n=200, sseed=7, alpha=0.1, deg=30, err=1.0, outside_quantifier=True)
 
@@ -417,6 +482,13 @@ def random_cases(rng, count, nmax, budget):
                         theta_idx=int(rng.integers(0, 90)))
             case["alpha"] = float(rng.choice([0.2, 0.1, 0.05]))
             case["err"] = float(rng.choice([0.2, 0.1, 0.05]))
+        if rng.uniform() < 0.15:
+            # some of the optional arguments left at their documented defaults (not passed at all)
+            names = ["deg", "err"] + (["lo", "hi"] if kind == "or" else [])
+            omit = [nm for nm in names if rng.integers(0, 2)] or [names[int(rng.integers(0, len(names)))]]
+            for nm in omit:
+                case[nm] = DEFAULTS[nm]
+            case["omit"] = omit
         # keep the work per contour bounded: rays * n * iterations
         rays = len(thetas_of(dict(case, n=n)))
         its = 100 if case["alpha"] * n * case["err"] < 1.5 else 20
@@ -454,14 +526,25 @@ def register(ck, recs):
         if rec.get("zeros"):
             ck.count("sample_contains_exact_zeros")
         if rec["impl_err"]:
-            ck.count("impl_exception=" + rec["impl_err"])
+            ck.count("impl_exception=" + rec["impl_err"] + "@" + str(rec.get("err_origin")))
         if not case.get("supplied", True):
             ck.count("sample_drawn_by_contour")
+        for nm in case.get("omit", ()):
+            ck.count("default_taken=" + {"deg": "deg_step", "err": "allowed_error", "lo": "lowest_theta", "hi": "highest_theta"}[nm])
+        if rec.get("or_missing") is not None:
+            ck.count("or_missing_thetas_unjustified_but_covered_by_warnings", rec["or_missing"][0])
+            if rec["nwarn"]:
+                ck.count("or_contours_with_warning_checked_for_dropped_points")
         if "unwarned_imprecise" in rec:
             ck.hyp_checked += 1
             if rec["unwarned_imprecise"]:
                 ck.diverge("search_precise_or_warned", case, "model run: un-warned ray with |pe-alpha|/alpha > err")
         bad = rec["bad"] if inq else []
+        if "deg" in case.get("omit", ()) and bad:
+            # the property does not say what the default step is (signature: 3, docstrings: 5); the theta grid of
+            # the oracle is the model's assumption here, so a disagreement is reported as correspondence
+            ck.diverge("and_or_default_deg_step:" + case["kind"], case, "; ".join(f"{p}: {d}" for p, d in bad)[:600])
+            bad = []
         for pred, detail in bad:
             ck.fail(sig(case, pred), case, detail)
         if rec["cmp"] is not None:
@@ -482,7 +565,8 @@ def main(ck):
     thorough = ck.tier == "thorough"
     ck.rule = (
         "corpus (published Hs-Tz model n=1e4; too-small sample -> every ray warns; clouds with exact zeros at theta=0; "
-        "'raytie'/'raytie2' clouds whose values sit exactly on the coordinates the search evaluates (heavy ties at the compared values); allowed_error=1 outside the quantifier), "
+        "'raytie'/'raytie2' clouds whose values sit exactly on the coordinates the search evaluates (heavy ties at the compared values); optional arguments omitted "
+        "(defaults deg_step=3, allowed_error=0.01, lowest_theta=10, highest_theta=80); allowed_error=1 outside the quantifier), "
         "then random AND/OR contours alternating: alpha in [1e-3,0.2], allowed_error in [0.005,0.2], deg_step in [1,30] (integers "
         "and 1.5/2.5/7.5), OR lowest/highest_theta in 7 combinations, samples from 4 real 2-D virocon model structures with perturbed "
         "parameters (marginal_icdf captured), non-negative arbitrary clouds (ties, Pareto/Cauchy tails, lattices, zeros) and raytie/raytie2 clouds, "
@@ -496,7 +580,13 @@ def main(ck):
     ]
     ck.partial = {
         "per-ray iteration counts": "not observable on the implementation without a hook; only the number of precision warnings is compared",
-        "sample drawn by the contour follows the model": "C07's subject; here only that the stored sample is the one searched",
+        "sample drawn by the contour follows the model": "C07's subject; here: exactly one draw_sample call with n = int(100/alpha), the stored sample is the drawn one; "
+        "a supplied sample is stored and left unmodified (compared with an untouched copy)",
+        "default deg_step": "the property does not state it (signature 3, docstrings 5): with deg_step omitted the oracle's theta grid is the model's assumption "
+        "and a disagreement is reported as correspondence (and_or_default_deg_step)",
+        "OR theta missing on a contour with warnings": "every missing theta whose ray has no precise point outside the 1.1*max box must be covered by a warning: "
+        "#imprecise kept points + #such thetas <= #warnings",
+        "the double 1.1 vs the rational 11/10 of or_contour_drops_beyond_1_1": "Float run (orContourF) compared bit for bit; oracle recomputes 1.1*max(x) in Python",
     }
     budget = 4e8 if thorough else 4e7
     cases = list(corpus_cases()) + list(random_cases(rng, 3000 if thorough else 170, 200000 if thorough else 20000, budget))
